@@ -130,15 +130,20 @@ open Proofs.Calc Proofs.NL Proofs.Fused
 
 /-- **log_softmax = log ∘ softmax** (mathematical `Real.log`), as arrays, for EVERY real array of any rank and any
     axis: the max-shifted `x − m − log Σ exp(x − m)` the kernel evaluates is the logarithm of every entry of the
-    max-shifted quotient `exp(x − m) / Σ exp(x − m)`; the two kernels also reject exactly the same calls (rank 0,
-    axis out of range, empty axis), so there is no hypothesis. -/
+    max-shifted quotient `exp(x − m) / Σ exp(x − m)`; the two kernels also reject exactly the same calls (axis out
+    of range — on a 0-d operand every `dim` other than `0` / `−1`; there both accept and the sides are `0`, `log 1` —,
+    empty axis), so there is no hypothesis. -/
 theorem log_softmax_is_log_softmax (x : NDArray ℝ) (axis : Int) :
     logSoftmaxForward x axis = (softmaxForward x axis).map (fun s => s.map Real.log) :=
   Proofs.Fused.log_softmax_is_log_softmax x axis
 
 /-- non-vacuity: an accepted call (both sides are `some`) -/
 example : ∃ s, softmaxForward (⟨[2, 2], [1, 2, 3, 4]⟩ : NDArray ℝ) (-1) = some s := by
-  simp [softmaxForward, normAxis]
+  simp [softmaxForward, normAxis, zeroDimAxis]
+/-- the 0-d case (`dim` 0 / −1 on a 0-d operand, accepted by both kernels): `0 = log 1` -/
+example : logSoftmaxForward (⟨[], [3]⟩ : NDArray ℝ) 0 = some ⟨[], [0]⟩ ∧
+    (softmaxForward (⟨[], [3]⟩ : NDArray ℝ) 0).map (fun s => s.map Real.log) = some ⟨[], [Real.log 1]⟩ :=
+  ⟨Proofs.NL.log_softmax_zero_dim _ rfl 0 (Or.inl rfl), by rw [Proofs.NL.softmax_zero_dim _ rfl 0 (Or.inl rfl)]; rfl⟩
 
 /-- the same entry by entry on the accepted calls (valid axis, non-empty along it): both sides are accepted, well-formed,
     of the operand's shape, every softmax entry is positive and `log_softmax[i] = Real.log (softmax[i])` -/
@@ -354,7 +359,7 @@ theorem cross_entropy_grad_is_nll_log_softmax_grad (x y ls : NDArray ℝ) (label
 
 example : ∃ y ls, crossEntropyForward (⟨[2, 2], [1, 2, 3, 4]⟩ : NDArray ℝ) [0, 1] = some y ∧
     logSoftmaxForward (⟨[2, 2], [1, 2, 3, 4]⟩ : NDArray ℝ) 1 = some ls := by
-  simp [crossEntropyForward, logSoftmaxForward, normAxis, nllForward, Proofs.Core.ofFn_shape]
+  simp [crossEntropyForward, logSoftmaxForward, normAxis, zeroDimAxis, nllForward, Proofs.Core.ofFn_shape]
 
 /-- **gradients of linear = gradients of `x @ transpose(W)`**, both operands: w.r.t. `x` the `matmul` backward (left
     operand); w.r.t. `W` the `matmul` backward (right operand) followed by the `transpose` backward -/
